@@ -490,6 +490,12 @@ def fancy_index(eng, arr, key):
     if isinstance(key, PEntryVec) and key.kind == "int" and len(arr.shape) == 1:
         out = PEntryVec(key.coo, lambda k: arr.elem([key.elem([k])]), arr.kind, role=f"{arr.label}[{key.role}]")
         return out
+    from .models import STup as _STup
+    if isinstance(key, _STup) and len(key.items) == 2 and len(arr.shape) == 2 and all(isinstance(k, PEntryVec) and k.kind == "int" for k in key.items) \
+            and key.items[0].coo is key.items[1].coo:
+        # arr[row_vector, col_vector] of a matrix: one element per stored entry of the COO matrix the vectors come from
+        r, c = key.items
+        return PEntryVec(r.coo, lambda k: arr.elem([r.elem([k]), c.elem([k])]), arr.kind, role=f"{arr.label}[{r.role},{c.role}]")
     raise Unsupported("fancy indexing")
 
 
